@@ -25,6 +25,7 @@ type RegRun struct {
 	hist        []*regOp
 	Probes      map[string]int
 	subPkgNamed string // a decoration name that reads as a sub-package style with a trailing section
+	neverDeco   []string
 }
 
 type regOp struct {
@@ -84,7 +85,10 @@ func NewRegRun(seed uint64, npool int, overwriteBuiltin ...bool) *RegRun {
 	}
 	// never registered — including names that only differ from a registered one
 	// by case or surrounding white space: the registry is an exact-match map
-	rr.never = []string{rr.prefix + "never", "", "no-such-decoration", "UTF8-Heavy", " none", "ascii-simple\n", "json", "texttable"}
+	rr.never = []string{rr.prefix + "never", "", "no-such-decoration", "UTF8-Heavy", " none", "ascii-simple\n"}
+	// as DECORATION names these are unknown too; as style strings they select a
+	// renderer, so only the decoration-name routes (C17) use them
+	rr.neverDeco = []string{"json", "texttable"}
 	rr.subPkgNamed = "html." + rr.prefix + "dark"
 	if len(rr.pool) > 0 {
 		rr.never = append(rr.never, strings.ToUpper(rr.pool[0]), rr.pool[0]+" ")
@@ -163,7 +167,7 @@ func variantGlyph(v int) string {
 // nameFor resolves a scripted name index: pool names, then built-ins, then
 // never-registered names.
 func (rr *RegRun) nameFor(i int) string {
-	all := append(append(append([]string{}, rr.pool...), builtinDecos...), rr.never...)
+	all := append(append(append(append([]string{}, rr.pool...), builtinDecos...), rr.never...), rr.neverDeco...)
 	return all[pick(len(all), i)]
 }
 
